@@ -119,6 +119,36 @@ def fd_search(p, h=1e-3):
     return None
 
 
+def byhand_witnesses(ctx):
+    """operators applied BY HAND (op(sm), in place and out of place) must carry the same partials as simulate():
+    regression witnesses of fixes 856bd7d (an operator with more batch axes than the carried partials) and c80244c
+    (PD with a batched density gives the partials the new shape)"""
+    import epgpy as epg
+    W = {
+        "growing-batch-rank": lambda: [epg.T(30, 0, order1=True), epg.E(5, 1000, np.array([40., 60., 80.]), order1=True),
+                                       epg.T(np.array([[20., 50.]]), 10, order1=True)],
+        "batched-PD-noreset": lambda: [epg.T(30, 0, order1=True), epg.S(1), epg.PD(np.array([1.0, 2.0]), reset=False),
+                                       epg.E(5, 1000, 50, order1=True), epg.T(40, 10, order1=True)],
+        "batched-PD-reset": lambda: [epg.T(30, 0, order1=True), epg.S(1), epg.PD(np.array([1.0, 2.0])),
+                                     epg.E(5, 1000, 50, order1=True), epg.T(40, 10, order1=True)],
+    }
+    for name, mk in W.items():
+        for inplace in (False, True):
+            try:
+                sm = epg.StateMatrix()
+                for op in mk():
+                    sm = op(sm, inplace=inplace)
+                ref = np.asarray(epg.simulate(mk() + [epg.ADC], probe=epg.Jacobian(["alpha", "T2"], probe="Z0")))[0]
+                got = np.stack([np.asarray(sm.order1["alpha"].Z0), np.asarray(sm.order1["T2"].Z0)], -1)
+                bad = got.shape != ref.shape or np.abs(got - ref).max() > 1e-12
+                why = "partials differ from simulate() by %.3g" % (np.abs(got - ref).max() if got.shape == ref.shape else np.inf)
+            except Exception as e:
+                bad, why = True, "raised %s: %s" % (type(e).__name__, str(e)[:150])
+            if bad:
+                ctx.report("operators applied by hand (%s, inplace=%s): %s" % (name, inplace, why), {"witness": name, "inplace": inplace}, found_input=True,
+                           signature={"site": "by-hand", "witness": name})
+
+
 # ---------------------------------------------------------------- n-D shifts with partials (real operators)
 ND_FINDING = {"site": "S-nd", "why": "partials-pruned-or-merged-independently"}
 
@@ -401,6 +431,7 @@ def run(ctx):
                 ctx.report("Jacobian column %s = %s but finite differences of simulate() give %s" % (v, jac[j], fd),
                            {"params": par, "variable": v}, found_input=True, signature={"jacobian-vs-fd": v})
     known_witnesses(ctx)
+    byhand_witnesses(ctx)
     probe_attr_stream(ctx, 4 if quick else 60)
     nd_stream(ctx, 40 if quick else 1200)
     grid_stream(ctx, 6 if quick else 150)
